@@ -1,11 +1,17 @@
 use std::io;
 use std::ops::{Add, AddAssign, Sub};
 use std::slice::SliceIndex;
+#[cfg(not(feature = "verif-hooks"))]
 use std::sync::{Arc, RwLock, RwLockWriteGuard};
+#[cfg(feature = "verif-hooks")]
+use crate::verif_hooks::sync::{Arc, RwLock, RwLockWriteGuard};
 use std::thread::panicking;
 use std::time::Duration;
+#[cfg(not(feature = "verif-hooks"))]
 #[cfg(not(target_arch = "wasm32"))]
 use std::time::Instant;
+#[cfg(feature = "verif-hooks")]
+use crate::verif_hooks::Instant;
 
 use console::Term;
 #[cfg(target_arch = "wasm32")]
